@@ -288,24 +288,25 @@ Definition p_ep_close (c : p_cfg) (s : p_st) (id : nat) (d : nat) : p_st :=
   | None => s
   end.
 
-(* EPoller::CheckDescriptor (with fix 02: data before close for connected descriptors) *)
+(* EPoller::CheckDescriptor (with fix 02: data before close for connected descriptors, and fix 03: the
+   read side handles the hang-up, a write registration sharing the fd is served by the EPOLLOUT check) *)
 Definition p_ep_check (c : p_cfg) (s : p_st) (ev : nat * p_flags) : p_st :=
   let '(id, fl) := ev in
   let '(s, fl) :=
     if f_hup fl then
       let o := ep_obj (st_ep s) id in
-      let s :=
-        match e_rd o, e_wd o, e_cd o with
-        | Some d, _, _ => p_invoke c s d PKRead
-        | None, Some d, _ => p_invoke c s d PKWrite
-        | None, None, Some d =>
-          let s := p_touch s d in
-          if p_has_data s d                         (* fix 02: !IsClosed() *)
-          then p_invoke c s d PKRead
-          else p_ep_close c s id d
-        | None, None, None => s                      (* OLA_FATAL log only *)
-        end in
-      (s, Build_p_flags false false false)           (* event->events = 0 *)
+      let keep_out := Build_p_flags false (f_out fl) false in     (* event->events &= EPOLLOUT *)
+      let none := Build_p_flags false false false in
+      match e_rd o, e_cd o, e_wd o with
+      | Some d, _, _ => (p_invoke c s d PKRead, keep_out)
+      | None, Some d, _ =>
+        let s := p_touch s d in
+        (if p_has_data s d                            (* fix 02: !IsClosed() *)
+         then p_invoke c s d PKRead
+         else p_ep_close c s id d, keep_out)
+      | None, None, Some d => (p_invoke c s d PKWrite, none)      (* write side only: events = 0 *)
+      | None, None, None => (s, none)                  (* OLA_FATAL log only *)
+      end
     else (s, fl) in
   let s :=
     if f_in fl then
